@@ -180,7 +180,7 @@ def gen_case(seed, tier):
         threads[0]["late"] = False
     alloc_fail = wl.choice([1, 2, 3, 4]) if wl.random() < 0.12 else None
     alloc_fail_commit = wl.choice([1, 2, 3]) if wl.random() < 0.10 else None
-    return {"prop": PROP, "seed": seed, "cfg": cfg, "threads": threads, "schedule": None, "alloc_fail": alloc_fail, "alloc_fail_commit": alloc_fail_commit}
+    return {"prop": PROP, "seed": seed, "cfg": cfg, "threads": threads, "schedule": None, "alloc_fail": alloc_fail, "alloc_fail_commit": alloc_fail_commit, "btree_t": wl.choice([3, 3, 4, 127])}
 
 
 # ---------------------------------------------------------------------------
@@ -475,6 +475,19 @@ class _World:
                 self.commits_invoked -= 1
                 self.failed_accounted += 1
                 self.res.probes.inc("commit_failed_zone_must_stay_usable")
+                # the transaction has ended (rolled back): a second attempt must be refused and
+                # must not publish anything or touch the write slot somebody else may hold by now
+                import dns.transaction
+
+                s.yield_point("op")
+                try:
+                    txn.commit()
+                except dns.transaction.AlreadyEnded:
+                    pass
+                except Exception as e:  # noqa: BLE001
+                    raise Violation("C12:failed-commit-retry", f"T{t.idx}: commit() after a failed commit raised {type(e).__name__}: {e}")
+                else:
+                    raise Violation("C12:failed-commit-retry", f"T{t.idx}: commit() after a failed commit was accepted")
                 self.log.add("commit_failed_alloc", t.idx)
                 t.phase = "idle"
                 return
@@ -750,6 +763,10 @@ class _World:
 def run_case(case, keep_log=False):
     res = RunResult()
     log = EventLog(keep=keep_log)
+    from checks import zonesim
+
+    if zonesim.set_btree_branching(case.get("btree_t")) < 127:
+        res.faults.inc("btree_branching_factor_lowered")
     world = _World(case, res, log)
     rng = sub_rng(case["seed"], "sched")
     sched = Scheduler(
